@@ -56,6 +56,7 @@ def plan(tier):
         p.append(('pair:' + rel, 90 * m))
     p.append(('history', 150 * m))
     p.append(('history_siblings', 40 * m))
+    p.append(('containers', 40 * m))
     return p
 
 
@@ -407,6 +408,75 @@ def case_history(ctx, rng, siblings=False):
     ctx.sample({'history': [list(map(str, s)) for s in script]})
 
 
+def case_containers(ctx, rng):
+    """The module-level gamma_method / gm applied to a container, and the wrappers of CObs and Corr: every member must end up analysed
+    with the effective parameters of THIS call, whatever else the container holds - members that are distinct objects with equal
+    content (a copy, 1.0 * o, the same data built twice), the same object several times, members analysed before with other
+    parameters - and the numbers must equal those of a direct analysis of an equal object."""
+    import copy
+    pe = PE
+    spec = rand_spec(rng, ctx.tier, nens=1)
+    o1 = build(spec)
+    spec2 = rand_spec(rng, ctx.tier, nens=1)
+    o2 = build(spec2)
+    members = [('base', o1), ('built-again', build(spec)), ('deepcopy', copy.deepcopy(o1)), ('times-one', 1.0 * o1), ('other', o2), ('same-object', o1)]
+    k = int(rng.integers(2, len(members) + 1))
+    pick = [members[i] for i in rng.permutation(len(members))[:k]]
+    kw_old = {'S': float(rng.choice([0.5, 1.0]))}
+    kw = rand_params(rng)
+    if kw.get('S') == kw_old['S'] or 'S' not in kw:
+        kw['S'] = float(rng.choice([2.0, 3.0]))
+    if not bool(rng.integers(0, 2)):
+        kw['fft'] = False
+    # some members carry an earlier analysis with other parameters
+    for tag, o in pick:
+        if rng.random() < 0.5:
+            analyse(o, kw_old)
+    form = str(rng.choice(['list', 'array', 'array2d', 'Corr', 'CObs']))
+    fn = pe.gamma_method if rng.random() < 0.5 else pe.gm
+    objs = [o for _, o in pick]
+    try:
+        with saved_class_state():
+            if form == 'list':
+                fn(objs, **kw)
+            elif form == 'array':
+                fn(np.array(objs, dtype=object), **kw)
+            elif form == 'array2d':
+                arr = np.empty((2, len(objs)), dtype=object)
+                for i_, o in enumerate(objs):
+                    arr[0, i_] = o
+                    arr[1, i_] = objs[-1 - i_]
+                fn(arr, **kw)
+            elif form == 'Corr':
+                if len(set(tuple(sorted(o.names)) for o in objs)) > 1:
+                    objs = [o for tag, o in pick if tag != 'other'] or [o1]
+                pe.Corr(objs).gamma_method(**kw)
+            else:
+                objs = objs[:2] if len(objs) >= 2 else [objs[0], objs[0]]
+                pe.CObs(objs[0], objs[1]).gamma_method(**kw)
+    except ValueError as e:
+        if 'at least 8 samples' in str(e) or 'common spacing' in str(e):
+            ctx.count('gm_calls_outside_quantifier')
+            return
+        raise
+    ctx.count('container_calls')
+    ctx.cell('container', form, len(objs))
+    with saved_class_state():
+        for tag, o in [(t_, o_) for t_, o_ in pick if any(o_ is x for x in objs)]:
+            twin = copy.deepcopy(o)
+            for a_ in ('S', 'tau_exp', 'N_sigma'):
+                setattr(twin, a_, {})
+            exp = analyse(twin, kw)
+            if exp is None:
+                continue
+            ctx.count('container_members_judged')
+            if not ctx.require(hasattr(o, 'e_dvalue') and len(o.e_dvalue) > 0, 'container:member-not-analysed', {'member': tag, 'form': form}):
+                continue
+            ctx.equal(results_digest(results_of(o)), results_digest(exp), 'container:member-differs-from-direct-analysis-with-the-same-parameters',
+                      '%s in %s' % (tag, form), detail={'kw': kw, 'got_S': dict(o.S), 'exp_S': exp['S'], 'got_dvalue': float(o._dvalue), 'exp_dvalue': exp['dvalue']})
+    ctx.nontrivial.add(digest('container', form, [t_ for t_, _ in pick], obs_digest(o1), sorted(kw.items())))
+
+
 def check_trace(ctx, events):
     """T1, T2, T4 over a slice of the event log."""
     by_key = {}
@@ -433,6 +503,11 @@ def run_case(ctx, kind, idx, rng):
     if kind.startswith('pair:'):
         start = len(TRACE)
         case_pair(ctx, rng, kind.split(':')[1])
+        check_trace(ctx, TRACE[start:])
+        del TRACE[:]
+    elif kind == 'containers':
+        start = len(TRACE)
+        case_containers(ctx, rng)
         check_trace(ctx, TRACE[start:])
         del TRACE[:]
     else:
